@@ -1,8 +1,9 @@
 (** Model of the client socket's offline buffers, /repo/client_socket.go:
     [_sendBuffers] (send now / park in sendBuffer / discard), [onEvent] (run the handler now / park
     the event in receiveBuffer), [registerSubEvents.openFunc], [onConnect] + [emitBuffered] (replay
-    receiveBuffer, then flush sendBuffer), [onClose].  Retries = 0 (no clientPacketQueue), no ack
-    timeouts (the time-out purge of sendBuffer belongs to C03).
+    receiveBuffer, then flush sendBuffer), [onClose].  Retries = 0 (no clientPacketQueue).  The ack
+    time-out of a parked emit is the operation [Timeout] (purge of the frames tagged with the id; the
+    timer and the callback themselves belong to C03).
 
     The model is the code AS REPAIRED by the two C15 fixes and the C02 fix of [_sendBuffers]
     (direct send only when Connected and nothing is parked, decided under sendBufferMu):
@@ -29,8 +30,12 @@ Inductive op :=
 | MgrOpen        (* the manager's open event reaches the socket (openFunc) *)
 | ConnectReply   (* CONNECT packet from the server (onConnect) *)
 | Close          (* the manager closed / server-side disconnect (socket.onClose) *)
-| Recv (label : N) (id : option N) (hs : list hkind).
+| Recv (label : N) (id : option N) (hs : list hkind)
     (* EVENT from the server with optional ack id; [hs] = the handlers registered for it *)
+| Timeout (id : N).
+    (* the ack time-out of the emit that carries ack id [id] expires (timeoutFunc of
+       registerAckHandler): every parked frame tagged with that id - the header frame and all of its
+       attachments - is dropped from sendBuffer, the others keep their order *)
 
 Inductive out :=
 | OConnect                                   (* CONNECT request handed to the manager *)
@@ -95,6 +100,10 @@ Definition noacks (l : list out) : list out := filter (fun o => negb (is_ack o))
     socket is Connected AND nothing is parked; otherwise it is parked (non-volatile) or discarded
     (volatile).  In the histories of this model the buffer is empty whenever the socket is connected
     (invariant [wf] in the proofs), except inside the CONNECT reply itself. *)
+Definition tagged (a : N) (o : out) : bool :=
+  match o with OFrame _ _ (Some b) => N.eqb a b | _ => false end.
+Definition purge (a : N) (sb : list out) : list out := filter (fun o => negb (tagged a o)) sb.
+
 Definition step (s : st) (o : op) : list out * st :=
   match o with
   | Emit label vol withAck att =>
@@ -120,6 +129,7 @@ Definition step (s : st) (o : op) : list out * st :=
       else ([], mkSt (cs s) (sendBuf s)
                      (recvBuf s ++ map (fun '(h, i) => (label, id, h, i)) (combine hs (seq 0 (length hs))))
                      (ackctr s))
+  | Timeout a => ([], mkSt (cs s) (purge a (sendBuf s)) (recvBuf s) (ackctr s))
   end.
 
 Fixpoint run (s : st) (h : list op) : list out * st :=
@@ -165,29 +175,48 @@ Definition lifecycle (c : cstate) (o : op) : cstate :=
 
 Definition emit_ids (label : N) (att : nat) : list (N * nat) := map (fun i => (label, i)) (seq 0 (S att)).
 
+(** [Timeout a] occurs in [h] before the next CONNECT reply (or the end of [h]). *)
+Fixpoint times_out_before_reply (a : N) (h : list op) : bool :=
+  match h with
+  | [] => false
+  | ConnectReply :: _ => false
+  | Timeout b :: h' => N.eqb a b || times_out_before_reply a h'
+  | _ :: h' => times_out_before_reply a h'
+  end.
+
 (** The frames the application is entitled to see delivered, in emission order: every emit made
-    while connected, and every non-volatile emit made while not connected. *)
-Fixpoint entitled (c : cstate) (h : list op) : list (N * nat) :=
+    while connected, and every non-volatile emit made while not connected - unless its ack time-out
+    expires while it is still parked, i.e. before the next CONNECT reply.  [ctr] = the ack id the
+    next emit with an ack will get (ids are handed out in emission order). *)
+Fixpoint entitled (c : cstate) (ctr : N) (h : list op) : list (N * nat) :=
   match h with
   | [] => []
   | o :: h' =>
       match o with
-      | Emit l vol _ att => if is_conn c || negb vol then emit_ids l att else []
-      | _ => []
-      end ++ entitled (lifecycle c o) h'
+      | Emit l vol wa att =>
+          (if is_conn c then emit_ids l att
+           else if negb vol && negb (wa && times_out_before_reply ctr h') then emit_ids l att
+           else [])
+          ++ entitled c (if wa then N.succ ctr else ctr) h'
+      | _ => entitled (lifecycle c o) ctr h'
+      end
   end.
 
-(** Non-volatile emits made since the last CONNECT reply while the socket was not connected. *)
-Fixpoint offline_pending (c : cstate) (acc : list (N * nat)) (h : list op) : list (N * nat) :=
+(** The frames parked at the end of [h]: non-volatile emits made since the last CONNECT reply while
+    not connected, minus the packets whose time-out expired meanwhile. *)
+Fixpoint offline_pending (c : cstate) (ctr : N) (acc : list out) (h : list op) : list out :=
   match h with
   | [] => acc
   | o :: h' =>
-      let acc' := match o with
-                  | Emit l vol _ att => if negb (is_conn c) && negb vol then acc ++ emit_ids l att else acc
-                  | ConnectReply => []
-                  | _ => acc
-                  end in
-      offline_pending (lifecycle c o) acc' h'
+      match o with
+      | Emit l vol wa att =>
+          let ack := if wa then Some ctr else None in
+          offline_pending c (if wa then N.succ ctr else ctr)
+            (if negb (is_conn c) && negb vol then acc ++ frames l ack att else acc) h'
+      | ConnectReply => offline_pending Connected ctr [] h'
+      | Timeout a => offline_pending c ctr (purge a acc) h'
+      | _ => offline_pending (lifecycle c o) ctr acc h'
+      end
   end.
 
 (** Handler invocations the application is entitled to: one per handler per received event. *)
